@@ -22,8 +22,13 @@
                                        written by xvc init (Gen/GitignoreInitial.v); fails when a pathspec matches nothing
      commit -m <msg>                  [git_commit]          fails when there is nothing to commit
      stash pop --index                [stash_pop_index]     index patch, then 3-way merge into index +
-                                       work tree, refuses to overwrite local changes (all or nothing)
-*)
+                                       work tree, refuses to overwrite local changes (all or nothing);
+                                       with an index to restore and anything staged it resets the index
+                                       to HEAD and refuses
+   Quirks found by the validation and modelled: `stash push --staged` with nothing staged exits 1 unless
+   the tree is clean; ignored untracked files are expendable for pop and checkout; checkout refuses when a
+   staged deletion leaves an untracked file the target lacks; the non-glob pathspec of `git add` only has
+   to exist. *)
 From Coq Require Import List Bool NArith.
 From XV Require Import Base.Amap Gen.GitignoreInitial.
 Import ListNotations.
@@ -277,7 +282,9 @@ Definition add_changes (g : git) : list path :=
   filter (add_change g) (tkeys (g_wt g) ++ tkeys (g_index g)).
 Definition pathspecs_match (g : git) : bool :=
   let ps := filter (fun p => is_some (tget (g_index g) p) || negb (ignored p)) (tkeys (g_wt g) ++ tkeys (g_index g)) in
-  existsb under_xvc ps && forallb (fun s => existsb (suffix_spec s) ps) add_suffixes.
+  (* the directory pathspec has no wildcard: it only has to exist (even with nothing but ignored files in
+     it); the `*<suffix>` pathspecs are globs and must match a file that is tracked or not ignored *)
+  existsb under_xvc (tkeys (g_wt g) ++ tkeys (g_index g)) && forallb (fun s => existsb (suffix_spec s) ps) add_suffixes.
 Definition git_add (g : git) : bool * list path * git :=
   if pathspecs_match g then
     let ch := add_changes g in
@@ -303,15 +310,16 @@ Definition wt_uptodate (x w : option blob) : bool :=
   | None => true                    (* a file missing from the work tree has nothing to lose *)
   | Some _ => oblob_eqb w x         (* otherwise it must be what the index says; an untracked file is in the way *)
   end.
-Definition pop_path (o x y w : option blob) : pmerge :=
+(* [ig]: the path is ignored; an ignored file that is not in the index is expendable (overwritten silently) *)
+Definition wt_ok (ig : bool) (x w : option blob) : bool := wt_uptodate x w || (ig && negb (is_some x)).
+Definition pop_path (ig : bool) (o x y w : option blob) : pmerge :=
   if oblob_eqb y o then PKeep                               (* the stash did not change the path *)
   else if oblob_eqb x y then PKeep                          (* same change already there *)
-  else if oblob_eqb x o then (if wt_uptodate x w then PTake y else PRefuse)
+  else if negb (wt_ok ig x w) then PRefuse                  (* local change / untracked file in the way: checked first *)
+  else if oblob_eqb x o then PTake y
   else match o, x, y with
        | Some ob, Some xb, Some yb =>
-           if wt_uptodate x w then
-             match merge3 ob xb yb with Some m => PTake (Some m) | None => PConflict end
-           else PRefuse
+           match merge3 ob xb yb with Some m => PTake (Some m) | None => PConflict end
        | _, _, _ => PConflict                                (* modify/delete, add/add *)
        end.
 Inductive outcome := Done (g : git) | Failed (g : git) | Dirty.   (* Dirty: unmerged index, state not modelled *)
@@ -331,7 +339,7 @@ Definition stash_pop_index (g : git) : outcome :=
               refuses because the index no longer is the tree it started from ("Your local changes ... would
               be overwritten by merge", "Index was not unstashed"): what was staged is now unstaged *)
       else
-        let pm := fun p => pop_path (tget (s_base e) p) (tget c p) (tget (s_wt e) p) (tget W p) in
+        let pm := fun p => pop_path (ignored p) (tget (s_base e) p) (tget c p) (tget (s_wt e) p) (tget W p) in
         if existsb (fun p => match pm p with PRefuse => true | _ => false end) ks then Failed g
         else if existsb (fun p => match pm p with PConflict => true | _ => false end) ks then Dirty
         else
@@ -356,7 +364,7 @@ Definition resolve (g : git) (r : refarg) : option (headref * N) :=
   | RId c => match find_commit (g_log g) c with Some _ => Some (Detached c, c) | None => None end
   end.
 Inductive cpath := CKeep | CSet (v : option blob) | CRefuse.
-Definition checkout_path (h t i w : option blob) : cpath :=
+Definition checkout_path (ig : bool) (h t i w : option blob) : cpath :=
   if oblob_eqb h t then CKeep                   (* same in both commits: local changes are carried over *)
   else if negb (is_some i) && negb (is_some t) && is_some w then CRefuse
                                                 (* staged deletion, an untracked file of that name, the target
@@ -364,7 +372,7 @@ Definition checkout_path (h t i w : option blob) : cpath :=
   else if oblob_eqb i t then CKeep              (* the index already has the target version *)
   else if oblob_eqb i h then
     (match i, w with
-     | None, Some _ => CRefuse                  (* untracked file would be overwritten *)
+     | None, Some _ => if ig then CSet t else CRefuse   (* untracked file would be overwritten (ignored: expendable) *)
      | _, _ => if wt_uptodate i w then CSet t else CRefuse
      end)
   else CRefuse.                                 (* staged change on a path that differs between the commits *)
@@ -375,7 +383,7 @@ Definition checkout_ref (r : refarg) (g : git) : bool * git :=
       let H := head_tree g in
       let T := tree_of (g_log g) (Some i) in
       let ks := tkeys H ++ tkeys T in
-      let cp := fun p => checkout_path (tget H p) (tget T p) (tget (g_index g) p) (tget (g_wt g) p) in
+      let cp := fun p => checkout_path (ignored p) (tget H p) (tget T p) (tget (g_index g) p) (tget (g_wt g) p) in
       if existsb (fun p => match cp p with CRefuse => true | _ => false end) ks then (false, g)
       else
         let I' := upd (g_index g) ks (fun p => match cp p with CSet v => v | _ => tget (g_index g) p end) in
@@ -407,7 +415,8 @@ Definition unstash (g : git) : bool * git * trace :=
   | Dirty => (false, g, [GStashPopIndex])     (* state after a conflicted pop is not modelled *)
   end.
 
-(* the part of git_auto_commit between stashing and unstashing: checkout -b, add, commit.
+(* git_add_and_commit (before the fix of P20: the part of git_auto_commit between stashing and
+   unstashing): checkout -b, add, commit.
    Result: ok?, reached the end of the function (false = the early `return Ok(())`)? *)
 Definition add_and_commit (tb : option name) (g : git) : bool * bool * git * trace :=
   let '(okb, g1, t1) :=
@@ -428,9 +437,10 @@ Definition add_and_commit (tb : option name) (g : git) : bool * bool * git * tra
           end
     end.
 
-(* git_auto_commit.  [fx] = false: the control flow of the tree as it is (the stash is popped only
-   when the end of the function is reached);  [fx] = true: the intended fix of P20 (popped on every
-   exit path after a successful stash). *)
+(* git_auto_commit.  [fx] = true: the tree as it is now (/repo af0f35b8: the add/commit part is the
+   helper git_add_and_commit = [add_and_commit], its result is examined after the stash has been popped:
+   popped on every exit path after a successful stash);  [fx] = false: the control flow before that fix
+   (P20: the stash is popped only when the end of the function is reached). *)
 Definition git_auto_commit (fx : bool) (tb : option name) (g : git) : bool * git * trace :=
   match stash_user_staged_files g with
   | (None, g1, t1) => (false, g1, t1)                       (* `?` *)
@@ -467,7 +477,7 @@ Record settings := {
   skip_git : bool;           (* --skip-git *)
   to_branch : option name;   (* --to-branch *)
   from_ref : option refarg;  (* --from-ref *)
-  fixed_P20 : bool           (* false: the tree as it is; true: stash popped on every exit path *)
+  fixed_P20 : bool           (* true: the tree as it is (stash popped on every exit path); false: before the fix of P20 *)
 }.
 
 (* handle_git_automation *)
